@@ -47,6 +47,10 @@ def shapes(n):
         s.append(("mutual%d" % k, pro + fs + "(define r (f0 %d 0))" % n + end))
     s.append(("param", pro + "(define (loop f i acc) (probe i) (if (= i 0) acc (f f (- i 1) (+ acc 1))))\n(define r (loop loop %d 0))" % n + end))
     s.append(("apply", pro + "(define (loop i acc) (probe i) (if (= i 0) acc (apply loop (list (- i 1) (+ acc 1)))))\n(define r (loop %d 0))" % n + end))
+    # apply whose callee takes all of its arguments as a rest list, and apply with leading operands before the list
+    s.append(("apply-rest-only", pro + "(define (loop . st) (probe (car st)) (if (= (car st) 0) (cadr st) (apply loop (list (- (car st) 1) (+ (cadr st) 1)))))\n(define r (loop %d 0))" % n + end))
+    s.append(("apply-spread", pro + "(define (loop i . st) (probe i) (if (= i 0) (car st) (apply loop (- i 1) (list (+ (car st) 1)))))\n(define r (loop %d 0))" % n + end))
+    s.append(("apply-lambda-args", pro + "(define loop (lambda args (probe (car args)) (if (= (car args) 0) (cadr args) (apply loop (- (car args) 1) (+ (cadr args) 1) '()))))\n(define r (loop %d 0))" % n + end))
     s.append(("rest", pro + "(define (loop i . rest) (probe i) (if (= i 0) (car rest) (loop (- i 1) (+ (car rest) 1))))\n(define r (loop %d 0))" % n + end))
     s.append(("let-temps", pro + "(define (loop i acc) (probe i) (if (= i 0) acc (let ((j (- i 1)) (a (+ acc 1))) (let* ((b a) (c j)) (loop c b)))))\n(define r (loop %d 0))" % n + end))
     s.append(("captured", pro + "(define (make) (let ((c 0)) (define (loop i) (probe i) (if (= i 0) c (begin (set! c (+ c 1)) (loop (- i 1))))) loop))\n(define r ((make) %d))" % n + end))
@@ -176,14 +180,26 @@ def run(ctx):
     limit_src = ("(define (depth n) (if (= n 0) 0 (+ 1 (depth (- n 1)))))\n"
                  "(define (try n) (with-handler (lambda (e) 'error-value) (depth n)))\n"
                  "(define r (list (try 100000) (try 24000000) 'alive))\n(list r 0 0 0)")
-    ljobs = [(pre + "limit", limit_src, jit) for pre in ("", "module:") for jit in (True, False)]
+    # the same when every level pushes two frames (the call and the thunk of an exception handler), entered at both
+    # parities of the frame count: the limit must not be stepped over by frames that are pushed without a test.
+    # The innermost handler receives the error value and counts it.  (No call/cc variant: capturing a continuation at
+    # every level of a 10^7-deep recursion copies the stack each time and needs > 60 GB.)
+    limit2_src = ("(define slot (vector #f))\n(define hit 0)\n"
+                  "(define (deep n) (if (= n 0) 0 (+ 1 (call-with-exception-handler (lambda (e) (set! hit (+ hit 1)) 0) "
+                  "(lambda () (+ 1 ((vector-ref slot 0) (- n 1))))))))\n(vector-set! slot 0 deep)\n"
+                  "(define (enter-a n) ((vector-ref slot 0) n))\n(define (enter-b n) (+ 1 ((vector-ref slot 0) n)))\n"
+                  "(define small (enter-a 1000))\n(define ra (enter-a 10500000))\n(define ha hit)\n(set! hit 0)\n"
+                  "(define rb (enter-b 10500000))\n(define r (list small (> ha 0) (> hit 0) 'alive))\n(list r 0 0 0)")
+    lsrc = {"limit": (limit_src, "(100000 error-value alive)"), "limit-handler-frames": (limit2_src, "(2000 #true #true alive)")}
+    ljobs = [(pre + nm, lsrc[nm][0], jit) for nm in lsrc for pre in ("", "module:") for jit in (True, False)]
     for name, jit, rc, last, err in C.pool_map(run_one, ljobs):
         stats["evaluations"] += 1
         stats["seen"].add((name, jit))
-        if rc != 0 or "(100000 error-value alive)" not in last:
+        src_l, want = lsrc[name.replace("module:", "")]
+        if rc != 0 or want not in last:
             ctx.violation("C09-%s-%s.scm" % (name.replace(":", "-"), "jit" if jit else "nojit"),
-                          "; STEEL_JIT=%s ; %srecursion past the frame limit must give an error value: expected ((100000 error-value alive) 0 0 0), got rc=%d %s %s\n%s\n" % (
-                              jit, "MODULE ; " if name.startswith("module:") else "", rc, last[-120:], err[-200:], limit_src))
+                          "; STEEL_JIT=%s ; %srecursion past the frame limit must give an error value: expected (%s 0 0 0), got rc=%d %s %s\n%s\n" % (
+                              jit, "MODULE ; " if name.startswith("module:") else "", want, rc, last[-120:], err[-200:], src_l))
 
     # constant space, not only constant stack depth: peak resident memory of loops that carry heap values must not
     # grow with the iteration count (a loop variable replaced on every iteration without being consumed is the
